@@ -114,6 +114,18 @@ def run_history(cfg, ops):
                 reduce_only = True if (side == 'sell' and typ != 'MARKET') else bool(ro and side == 'sell')
                 lhs, rhs = model.accepts(s, side, typ, qty, price)
                 ambiguous = abs(lhs - rhs) <= TOL * max(1, abs(rhs))
+                if side == 'sell' and size_code == 1.0:
+                    # sell exactly what the account itself reports as free (what `position.qty` based exits do): must be accepted
+                    from decimal import Decimal
+                    kindk2 = 'LIMIT' if typ == 'MARKET' else typ
+                    impl_free = float(Decimal(repr(float(b.exchange.assets[s.split('-')[0]]))) - Decimal(repr(float(model.resting_sells(s, kindk2)))))
+                    if impl_free > 0:
+                        qty = impl_free
+                        lhs, rhs = model.accepts(s, side, typ, qty, price)
+                        ambiguous = False if lhs <= rhs or abs(lhs - rhs) <= TOL * max(1, abs(rhs)) else ambiguous
+                        if abs(lhs - rhs) <= TOL * max(1, abs(rhs)):
+                            lhs = rhs  # the reported balance is the reference point: selling all of it is affordable by definition
+                        flags.add('sell-exactly-the-reported-free-base')
                 expect_reject = lhs > rhs
                 what = f'submit-{side}-{typ}'
                 applied.append(['submit', si, side, typ, size_code, poff, ro])
